@@ -2,6 +2,7 @@
    The per-run obligation (coq/../C12_gen_all_balanced) instantiates C12_balanced_sound on the CFG skeletons
    regenerated from the current source. *)
 From MV Require Import Model.LockCfg Proofs.LockCfgSound.
+From MV Require Import Model.Handshaker Proofs.HandshakerProofs.
 Open Scope N_scope.
 
 (* For every function the checker accepts, EVERY path from its entry (any length, loops any number of times,
@@ -39,3 +40,20 @@ Definition ex_fixed : func :=
 Example C12_ex : balanced_fn permissive ex_double_lock = false /\ balanced_fn permissive ex_fixed = true
                  /\ run_path permissive ex_double_lock [1%nat] = Bad (SelfDeadlock 1).
 Proof. vm_compute. auto. Qed.
+
+(* ---- the handshaker (Model/Handshaker.v): a handshake that fails leaves its connection closed and is reported once as a
+   failure; the handshaker stays usable -- the next completed handshake is what Wait returns next, however many other
+   handshakes are still in flight; a connection is handed out at most once ---- *)
+Theorem C12_failed_handshake_closed : forall s c, nmem c (h_work s) = true -> ~ In c (h_open (fst (hstep s (HFinish c false)))).
+Proof. exact failed_is_closed. Qed.
+Print Assumptions C12_failed_handshake_closed.
+
+Theorem C12_stalled_peers_do_not_delay : forall s c, h_closed s = false -> h_done s = [] -> nmem c (h_work s) = true ->
+  snd (hstep (fst (hstep s (HFinish c true))) HWait) = WPipe c /\
+  snd (hstep (fst (hstep s (HFinish c false))) HWait) = WFail.
+Proof. exact stalled_peers_do_not_delay. Qed.
+Print Assumptions C12_stalled_peers_do_not_delay.
+
+Theorem C12_connection_given_once : forall ops, NoDup (h_given (fst (hrun h0 ops))).
+Proof. exact given_once. Qed.
+Print Assumptions C12_connection_given_once.
